@@ -272,6 +272,190 @@ theorem reachable_cache_ok (bsz : Nat) (ops : List CacheOp) :
           rw [this]; exact hb
   exact this ops _ h0
 
+/-! ### the current snapshot is the datastore view of everything consumed -/
+
+theorem loopOnce_maxBatch (c : Cache) (ts : Nat) : (loopOnce c ts).maxBatch = c.maxBatch := by
+  unfold loopOnce publishBreadcrumbs
+  have key : ∀ (fuel : Nat) (x : Cache) (t : Nat), (publishRest x t fuel).maxBatch = x.maxBatch := by
+    intro fuel
+    induction fuel with
+    | zero => intro x t; rfl
+    | succ n ihn =>
+      intro x t
+      unfold publishRest
+      split
+      · rfl
+      · rw [ihn, publishBreadcrumb_maxBatch]
+  rw [key, publishBreadcrumb_maxBatch, fillBatch_maxBatch]
+
+theorem storePending_fixed (c : Cache) (o : In) :
+    (storePending c o).1.kvs = c.kvs ∧ (storePending c o).1.older = c.older ∧ (storePending c o).1.cur = c.cur := by
+  cases o <;> exact ⟨rfl, rfl, rfl⟩
+
+theorem batchLoop_fixed (c : Cache) (n : Nat) (q : List In) :
+    (batchLoop c n q).1.kvs = c.kvs ∧ (batchLoop c n q).1.older = c.older ∧ (batchLoop c n q).1.cur = c.cur := by
+  induction q generalizing c n with
+  | nil => exact ⟨rfl, rfl, rfl⟩
+  | cons o q ih =>
+    unfold batchLoop
+    split
+    · obtain ⟨a, b, d⟩ := ih (storePending c o).1 (n + (storePending c o).2)
+      obtain ⟨a', b', d'⟩ := storePending_fixed c o
+      exact ⟨a.trans a', b.trans b', d.trans d'⟩
+    · exact ⟨rfl, rfl, rfl⟩
+
+theorem fillBatch_fixed (c : Cache) :
+    (fillBatch c).kvs = c.kvs ∧ (fillBatch c).older = c.older ∧ (fillBatch c).cur = c.cur := by
+  unfold fillBatch
+  split
+  · exact ⟨rfl, rfl, rfl⟩
+  · rename_i o q _
+    obtain ⟨a, b, d⟩ := batchLoop_fixed (storePending c o).1 (storePending c o).2 q
+    obtain ⟨a', b', d'⟩ := storePending_fixed c o
+    exact ⟨a.trans a', b.trans b', d.trans d'⟩
+
+/-- The updates the cache takes off its input channel over a run (in order). -/
+def consumedBy : Cache → List CacheOp → List SU
+  | _, [] => []
+  | c, .push o :: ops => consumedBy (push c o) ops
+  | c, .loop ts :: ops =>
+    if c.inputQ.isEmpty then consumedBy c ops
+    else (fillBatch c).pendingUpdates ++ consumedBy (loopOnce c ts) ops
+
+theorem run_current_view (ops : List CacheOp) (c : Cache) (h : CacheInv c) (hmb : 0 < c.maxBatch)
+    (hp : c.pendingUpdates = []) :
+    vmap (c.run ops).cur.kvs = vfold (vmap c.cur.kvs) (consumedBy c ops) ∧ (c.run ops).pendingUpdates = [] := by
+  induction ops generalizing c with
+  | nil => exact ⟨rfl, hp⟩
+  | cons op ops ih =>
+    cases op with
+    | push o =>
+      have hpush : (push c o).pendingUpdates = [] ∧ (push c o).cur = c.cur ∧ (push c o).maxBatch = c.maxBatch := by
+        unfold push; split <;> exact ⟨hp, rfl, rfl⟩
+      have := ih (push c o) (h.push o) (by rw [hpush.2.2]; exact hmb) hpush.1
+      simp only [Cache.run, List.foldl_cons, Cache.stepOp, consumedBy] at this ⊢
+      rw [hpush.2.1] at this
+      exact this
+    | loop ts =>
+      simp only [Cache.run, List.foldl_cons, Cache.stepOp, consumedBy]
+      split
+      · exact ih c h hmb hp
+      · obtain ⟨s1, s2, _, _⟩ := status_never_precedes_updates c h hmb ts
+        have := ih (loopOnce c ts) (h.loopOnce ts) (by rw [loopOnce_maxBatch]; exact hmb) s1
+        simp only [Cache.run] at this
+        refine ⟨?_, this.2⟩
+        rw [this.1, s2, vfold_append, (fillBatch_fixed c).1, vmap_of_asMap _ _ h.cur_view]
+
+/-- **The current snapshot is the datastore view**: over any run, the cache's current breadcrumb holds
+(value-wise; a skipped no-op keeps the older revision) exactly the fold of EVERY update the cache has taken off its
+input channel, and nothing is left pending between loop iterations.  With `client_converges_to_current`: a client
+that is not cut off ends with the datastore view of everything Typha has consumed. -/
+theorem current_snapshot_is_datastore (bsz : Nat) (ops : List CacheOp) :
+    vmap ((Cache.new bsz).run ops).cur.kvs = vfold (fun _ => none) (consumedBy (Cache.new bsz) ops) ∧
+      ((Cache.new bsz).run ops).pendingUpdates = [] := by
+  have h0 : 0 < (Cache.new bsz).maxBatch := by
+    simp only [Cache.new]; split <;> omega
+  exact run_current_view ops (Cache.new bsz) (CacheInv.new bsz) h0 rfl
+
+/-! ### per key, the client sees a contiguous segment of what the cache applied -/
+
+/-- The updates of a list that concern key `k`, in order. -/
+def keySeq (k : Nat) (l : List SU) : List SU := l.filter (fun u => u.key == k)
+
+theorem keySeq_append (k : Nat) (a b : List SU) : keySeq k (a ++ b) = keySeq k a ++ keySeq k b := by
+  simp [keySeq]
+
+/-- The first crumb of every reachable chain is the empty start-of-day crumb. -/
+theorem chain_head_empty (bsz : Nat) (ops : List CacheOp) :
+    ∃ c0, ((Cache.new bsz).run ops).chain[0]? = some c0 ∧ c0.kvs = [] := by
+  have key : ∀ (ops : List CacheOp) (c : Cache), (∃ c0, c.chain[0]? = some c0 ∧ c0.kvs = []) →
+      ∃ c0, (c.run ops).chain[0]? = some c0 ∧ c0.kvs = [] := by
+    intro ops
+    induction ops with
+    | nil => intro c h; exact h
+    | cons op ops ih =>
+      intro c h
+      apply ih
+      -- one op keeps the head of the chain
+      have hpb : ∀ (x : Cache) (t : Nat), (∃ c0, x.chain[0]? = some c0 ∧ c0.kvs = []) →
+          ∃ c0, (publishBreadcrumb x t).chain[0]? = some c0 ∧ c0.kvs = [] := by
+        intro x t ⟨c0, h0, hk⟩
+        refine ⟨c0, ?_, hk⟩
+        have hmint : ∀ n : Crumb, ((x.older ++ [x.cur]) ++ [n])[0]? = some c0 := by
+          intro n
+          rw [List.getElem?_append_left (by simp)]
+          exact h0
+        unfold publishBreadcrumb
+        simp only
+        repeat' split
+        all_goals first
+          | exact h0
+          | exact hmint _
+      have hrest : ∀ (fuel : Nat) (x : Cache) (t : Nat), (∃ c0, x.chain[0]? = some c0 ∧ c0.kvs = []) →
+          ∃ c0, (publishRest x t fuel).chain[0]? = some c0 ∧ c0.kvs = [] := by
+        intro fuel
+        induction fuel with
+        | zero => intro x t hx; exact hx
+        | succ n ihn =>
+          intro x t hx
+          unfold publishRest
+          split
+          · exact hx
+          · exact ihn _ _ (hpb x t hx)
+      cases op with
+      | push o =>
+        simp only [Cache.stepOp, push]
+        split <;> exact h
+      | loop ts =>
+        simp only [Cache.stepOp]
+        split
+        · exact h
+        · unfold loopOnce publishBreadcrumbs
+          apply hrest
+          apply hpb
+          obtain ⟨c0, h0, hk⟩ := h
+          refine ⟨c0, ?_, hk⟩
+          simp only [Cache.chain, (fillBatch_fixed c).2.1, (fillBatch_fixed c).2.2]
+          exact h0
+  exact key ops _ ⟨(Cache.new bsz).cur, by simp [Cache.chain, Cache.new], rfl⟩
+
+/-- **Per key, never an older value after a newer one**: let `all` be every delta the cache ever applied, in order.
+For each key `k`, what the client receives for `k` is: the snapshot entry, which is the result of applying the
+prefix `keySeq k (deltas up to the join point)`, followed by `keySeq k` of its delta messages, which is exactly the
+NEXT contiguous stretch of `keySeq k all` (everything up to some crumb `p`; up to the end if it is not cut off).
+So the client's per-key sequence is a contiguous continuation of the cache's applied sequence: no older value can
+follow a newer one, and none is skipped in between. -/
+theorem per_key_order (bsz : Nat) (ops : List CacheOp) (start : Nat) (cfg : SrvCfg) (lags : List Nat) (c : Crumb)
+    (k : Nat) :
+    let chain := ((Cache.new bsz).run ops).chain
+    let r := sendDeltas chain cfg start lags
+    chain[start]? = some c →
+      ∃ p, start ≤ p ∧ p ≤ r.pos ∧ p < chain.length ∧
+        keySeq k (dB chain 0 (chain.length - 1)) =
+          keySeq k (dB chain 0 start) ++ keySeq k (kvsConcat r.msgs) ++ keySeq k (dB chain p (chain.length - 1)) ∧
+        asMap c.kvs k = applyDs emptyView (dB chain 0 start) k := by
+  intro chain r hc
+  have inv := (CacheInv.new bsz).run ops
+  have hlt : start < chain.length := by
+    rcases Nat.lt_or_ge start chain.length with h | h
+    · exact h
+    · rw [List.getElem?_eq_none h] at hc; cases hc
+  have hpos : (sendDeltas chain cfg start lags).pos < chain.length := sendDeltas_pos_lt chain cfg start lags hlt
+  obtain ⟨p, hp1, hp2, hk⟩ := (sendDeltas_spec chain cfg start lags).prefix_exact
+  refine ⟨p, hp1, hp2, by omega, ?_, ?_⟩
+  · show _ = keySeq k (dB chain 0 start) ++ keySeq k (kvsConcat (sendDeltas chain cfg start lags).msgs) ++ _
+    rw [hk, ← keySeq_append, ← keySeq_append, dB_split chain 0 start p (Nat.zero_le _) hp1,
+      dB_split chain 0 p (chain.length - 1) (Nat.zero_le _) (by omega)]
+  · obtain ⟨c0, h0, hk0⟩ := chain_head_empty bsz ops
+    have ht := chain_telescope chain inv.chain 0 start (Nat.zero_le _) hlt
+    have hv0 : viewAt chain 0 = emptyView := by
+      funext x
+      simp only [viewAt]
+      rw [show chain[0]? = some c0 from h0]
+      simp [hk0, asMap, kvsGet, emptyView]
+    have hvs : viewAt chain start = asMap c.kvs := by simp [viewAt, hc]
+    rw [← hvs, ht, hv0]
+
 /-! ### non-vacuity -/
 
 /-- A history with a no-op skip, a deletion, a batch split over two crumbs and a late InSync. -/
